@@ -20,9 +20,9 @@ M = [
  ('M15-05', 'C15', 'biogeme.py', "            keep_save_iterations = self.save_iterations\n            self.save_iterations = False\n", "            keep_save_iterations = self.save_iterations\n", 'I15.3b'),
  ('M15-06', 'C15', 'biogeme.py', '        return f"__{self.modelName}.iter"', '        return f"__{self.modelName.split()[0]}.iter"', 'I15'),
  ('M15-07', 'C15', 'biogeme.py', "        if not np.isfinite(gradnorm):\n", "        if not np.isfinite(f):\n", 'I15.3'),
- ('M15-08', 'C15', 'biogeme.py', "                    betas[ell[0].strip()] = float(ell[1])", "                    betas[ell[0].strip()] = float(ell[1][:12])", 'I15.4'),
+ ('M15-08', 'C15', 'biogeme.py', "                    betas[name] = float(value)", "                    betas[name] = float(value[:12])", 'I15.4'),
  ('M14-01', 'C14', 'filenames.py', "    while the_file.is_file():", "    if the_file.is_file():", 'I14.1'),
- ('M14-02', 'C14', 'filenames.py', "        file_name = f'{name}~{number:02d}.{ext}'", "        file_name = f'{name}~{number % 3:02d}.{ext}'", 'I14.1'),
+ ('M14-02', 'C14', 'filenames.py', "    while the_file.is_file():", "    while the_file.is_file() and number < 3:", 'I14.1'),
  ('M14-03', 'C14', 'results.py', "        self.data.pickleFileName = bf.get_new_file_name(self.data.modelName, 'pickle')", "        self.data.pickleFileName = self.data.modelName + '.pickle'", 'I14.1'),
  ('M14-04', 'C14', 'parameters.py', "TRUE_STR = ('True', 'true', 'Yes', 'yes')", "TRUE_STR = ('True', 'true', 'Yes')", 'I14.4'),
  ('M14-05', 'C14', 'results.py', "        for name, values in table.iterrows():\n            html += f'<tr class=biostyle><td>{name}</td>'", "        for name, values in list(table.iterrows())[:-1] if len(table) > 2 else table.iterrows():\n            html += f'<tr class=biostyle><td>{name}</td>'", 'I14.5'),
